@@ -2,6 +2,7 @@
 #![allow(dead_code, unused_variables, clippy::all)]
 
 pub mod abs;
+pub mod bytegen;
 pub mod c02;
 pub mod c03;
 pub mod c16;
